@@ -254,11 +254,12 @@ def cfgwCase (role : String) (pat : List Nat) (l : CfgLine) : String :=
           | some w, .ready b => s!"ok {toHex b} {peerView b} pieces={piecesOf w script}"
           | some w, .pending b _ => s!"pending wrote={toHex b} pieces={piecesOf w script}"
           | _, _ => "panic"
-      -- specification: as for `set cfg`, whatever the acceptance pattern (a pattern that never grants a
-      -- byte leaves setup waiting: no demand)
+      -- specification: as for `set cfg`, whatever the acceptance pattern — provided the transport has
+      -- taken at least 42 bytes by the end of the script (no header is longer, `C13_sent_settings`);
+      -- with less credit setup may still be waiting: no demand
       let sp :=
         if r.mfs ≥ 2^62 || r.wts ≥ 2^62 then "err wrote=- **"
-        else if (pat.foldl (· + ·) 0) == 0 then "?"
+        else if (script.foldl (· + ·) 0) < 42 then "?"
         else
           let want : List (Nat × String) :=
             [(H3.Spec.Settings.MAX_FIELD_SECTION_SIZE, toString r.mfs),
